@@ -436,8 +436,10 @@ class _SyncWs:
         """L2: one record per websocket operation of the client (hub.primlog)."""
         lg = self.w.hub.primlog
         if lg is not None:
-            lg.append({'t': getattr(self.w.hub.current, 'proc', None), 'op': op, 'item': item,
-                       'q': 'ws'})
+            rec = {'t': getattr(self.w.hub.current, 'proc', None), 'op': op, 'item': item,
+                   'q': 'ws'}
+            lg.append(rec)
+            self.w.hub.after_log(rec)
 
     def settimeout(self, t):
         self.timeout = t
@@ -447,11 +449,8 @@ class _SyncWs:
         if self.conn['state'] != 'open':
             raise _WsClosed('closed')
         tok = cli_sent_token(data, 'ws')
-        self._log('ws_send', tok)
         self.w.out.append({'k': 'wstx', 'f': tok})
-        hook = getattr(self.w, 'on_ws_send', None)
-        if hook:
-            hook(tok)
+        self._log('ws_send', tok)
 
     def send_binary(self, data):
         if self.conn['state'] != 'open':
@@ -477,12 +476,14 @@ class _SyncWs:
         return item
 
     def close(self):
-        self._log('ws_close')
-        if self.conn['state'] == 'open':
+        was_open = self.conn['state'] == 'open'
+        if was_open:
             self.conn['state'] = 'closedbyclient'
             self.connected = False
             self.w.out.append({'k': 'wsclosed'})
-            self.conn['inq'].put(_CLOSED)
+        self._log('ws_close')
+        if was_open:
+            self.conn['inq'].put(_CLOSED)       # wakes a receiver
 
 
 # ================================= asyncio client ===========================================
